@@ -29,12 +29,15 @@ class verb(Command):
     def invoke(self, tex):
         """ Parse for matching delimiters """
         self.ownerDocument.context.push(self)
-        self.parse(tex)
+        # The category codes must be changed before looking for the `*`:
+        # that look-ahead tokenizes the delimiter if there is no `*` and
+        # the closing delimiter is going to be read in verbatim mode.
         self.ownerDocument.context.setVerbatimCatcodes()
+        self.parse(tex)
         # See what the delimiter is
         for endpattern in tex:
             self.delimiter = endpattern
-            if isinstance(endpattern, bgroup):
+            if isinstance(endpattern, bgroup) or endpattern == '{':
                 self.delimiter = endpattern = Other('}')
             break
         tokens = [self, endpattern]
